@@ -371,6 +371,14 @@ class Evaluator:
                 if r is None or (isinstance(r, tuple) and r[0] not in ("ptr", "str", "fn")):
                     raise Unknown("inlined %s: %s" % (nm, r))
                 return r
+            # an unmodelled callee: its arguments are still evaluated (nested calls are answered, side effects happen)
+            for a in f.args(n):
+                try:
+                    self.ev(a)
+                except Thrown:
+                    raise
+                except Unknown:
+                    pass
             self.trace.append((nm, None, n))
             raise Unknown("call " + str(nm))
         if k == "CXXNewExpr":
